@@ -192,6 +192,8 @@ def shrink(mod, modname, job, target, pool, budget_runs=200, budget_s=120):
 def _out_root():
     """evidence and replays of runs against a scratch copy (mutants, seeded changes: VERIF_REPO set) must never
     overwrite the evidence of /repo itself"""
+    if os.environ.get("VERIF_OUT_ROOT"):
+        return os.environ["VERIF_OUT_ROOT"]
     repo = os.path.realpath(os.environ.get("VERIF_REPO", "/repo"))
     if repo != os.path.realpath("/repo"):
         import tempfile
@@ -382,6 +384,9 @@ def run_check(modname, tier, verif_seed, nworkers, n_override=None, selftest=Tru
         pool.shutdown(wait=False, cancel_futures=True)
 
     wall = time.time() - t0
+    if os.environ.get("VERIF_DUMP_DIGESTS"):
+        with open(os.environ["VERIF_DUMP_DIGESTS"], "w") as fh:
+            json.dump({str(r["index"]): r.get("digest") for r in results}, fh)
     # ---------------- evidence
     faults = {}
     probes = {}
